@@ -656,6 +656,38 @@ func scenarios() []*sched.Scenario {
 			vrt.Fail("final-state", "after DeleteAll({1,2}) || Apply(+3) the set is %v", s.ToSlice())
 		}
 	}})
+	// read-only bulk views racing single-element writers: every reported element was a member at some point, none twice
+	out = append(out, &sched.Scenario{Name: "toslice-iterator-vs-add-delete", UnboundedThoroughOnly: true, Run: func() {
+		s := ds.NewSet(1, 2, 3)
+		var got, viaIt []int
+		vrt.Par(
+			func() {
+				got = s.ToSlice()
+				it := s.Iterator()
+				for it.HasNext() {
+					viaIt = append(viaIt, it.Next())
+				}
+			},
+			func() { s.Delete(1); s.Add(4) },
+			func() { s.Delete(3) },
+		)
+		vrt.Observe("final", fmt.Sprint(got), fmt.Sprint(viaIt), fmt.Sprint(s.ToSlice()))
+		for _, l := range [][]int{got, viaIt} {
+			seen := map[int]bool{}
+			for _, e := range l {
+				if e < 1 || e > 4 {
+					vrt.Fail("phantom-element", "ToSlice/Iterator reported %d, which was never an element of the set (result %v)", e, l)
+				}
+				if seen[e] {
+					vrt.Fail("duplicate-element", "ToSlice/Iterator reported %d twice (result %v)", e, l)
+				}
+				seen[e] = true
+			}
+			if !seen[2] {
+				vrt.Fail("missing-element", "element 2 was a member throughout but is missing from %v", l)
+			}
+		}
+	}})
 	out = append(out, &sched.Scenario{Name: "addall-deleteall-vs-replace", UnboundedThoroughOnly: true, Run: func() {
 		s := ds.NewSet(1)
 		vrt.Par(func() { s.AddAll(ds.NewSet(2, 3)) }, func() { s.Replace(ds.NewSet(3, 1)) }, func() { s.DeleteAll(ds.NewSet(1)) })
